@@ -34,11 +34,31 @@ def strict_everywhere(drv, b: bytes) -> bool:
     return True
 
 
+def sized_case(n_cmds, n_comps, n_parts, n_blocks):
+    """arrays around the CBOR head boundaries: 23 / 24 / 25 and 255 / 256 items (a command sequence of 12 commands is an array of 24)"""
+    cmds = [{"suit-condition-image-match": []} if i % 2 else {"suit-directive-set-component-index": i % 3} for i in range(n_cmds)]
+    blk = {"CoseSign1Tagged": {"protected": {"suit-cose-algorithm-id": "cose-alg-es-256", "suit-cose-key-id": 7}, "unprotected": {}, "payload": None, "signature": "ab" * 8}}
+    wrapper = {"SuitDigest": {"suit-digest-algorithm-id": "cose-alg-sha-256"}}
+    for i in range(n_blocks):
+        wrapper[f"SuitAuthentication{i}"] = {"CoseSign1Tagged": {**blk["CoseSign1Tagged"], "protected": {"suit-cose-algorithm-id": "cose-alg-es-256", "suit-cose-key-id": 100 + i}}}
+    return {"SUIT_Envelope_Tagged": {"suit-authentication-wrapper": wrapper,
+                                     "suit-manifest": {"suit-manifest-version": 1, "suit-manifest-sequence-number": 1,
+                                                       "suit-common": {"suit-components": [["M", i] for i in range(n_comps)] + [[j for j in range(n_parts)]]},
+                                                       "suit-validate": cmds,
+                                                       "suit-invoke": [{"suit-directive-try-each": [cmds[: n_cmds // 2], cmds]}]}}}
+
+
+SIZED = [(11, 1, 1, 0), (12, 1, 1, 1), (13, 23, 23, 2), (12, 24, 24, 9), (127, 25, 25, 10), (128, 1, 255, 12), (12, 255, 1, 11), (6, 256, 256, 23)]
+
+
 def work(args):
     seed, index, big = args
     drv = common.worker_driver()
     try:
-        desc, files, feats = suitcases.make_case(seed, index, big=big)
+        if big == "sized":
+            desc, files, feats = sized_case(*SIZED[index % len(SIZED)]), {}, ["sized:%d/%d/%d/%d" % SIZED[index % len(SIZED)]]
+        else:
+            desc, files, feats = suitcases.make_case(seed, index, big=big)
     except suitcases.ChildFailed:
         return None
     import random
@@ -85,6 +105,7 @@ def run(tier: str, seed: int) -> int:
         return finish(res, st, RULE, NOTE)
     n = 1400 if tier == "quick" else 30000
     jobs = [(seed, i, False) for i in range(n)] + [(seed, 9 * 10 ** 6 + i, True) for i in range(10 if tier == "quick" else 100)]
+    jobs += [(seed, i, "sized") for i in range(len(SIZED))]
     known = {e["id"] for e in Findings().known(PROP)}
     outs = common.pmap(work, jobs, chunk=8)
     feat_count = {}
